@@ -273,6 +273,8 @@ def c13():
             tiers = ("quick", "thorough") if (n <= 2 and g <= 1) else ("thorough",)
             qs.append(Q(f"cmap4_ref_seg{n}_gid{g}", "cmap.cpp", "vh_cmap4_ref", {"NSEG": n, "NGID": g}, unwind=n + 4, unwindset={"vh_bytes": 64}, tiers=tiers))
         qs.append(Q(f"cmap12_ref_grp{n}", "cmap.cpp", "vh_cmap12_ref", {"NGRP": n}, unwind=n + 3, unwindset={"vh_bytes": 64}, tiers=("quick", "thorough") if n <= 2 else ("thorough",)))
+    for nrec, tl in ((1, 20), (1, 28), (2, 28), (2, 36)):
+        qs.append(Q(f"findsubtable_r{nrec}_len{tl}", "cmap.cpp", "vh_findsubtable", {"NREC": nrec, "TLEN": tl, "NSEG": 1, "NGID": 0, "NGRP": 1}, unwind=nrec + 3, unwindset={"vh_bytes": tl + 2, "FindCmapSubtable": nrec + 2, "vh_findsubtable": nrec + 2}))
     for n in (0, 1, 2, 3, 5):
         qs.append(Q(f"pseudo_n{n}", "silfload.cpp", "vh_pseudo", {"NPS": n}, unwind=n + 3))
     return qs
@@ -409,8 +411,21 @@ def c01_reach():
         if q.name in want:
             r = copy.copy(q); r.defines = dict(q.defines, REACH_ACCEPT=None); r.name = q.name + "_accepts"; r.tiers = ("quick", "thorough"); qs.append(r)
     return qs
+def c01_readglyph():
+    qs = []
+    for ver in (1, 2, 3):
+        for glen in ((8, 9, 10, 11, 12) if ver < 3 else (12, 14, 15, 16)):
+            for lf in (0, 1):
+                if lf and glen not in (10, 11, 15): continue
+                sizes = sorted({0, glen, 8 + (8 if lf else 4)} | {(4 * c + n) * 2 for c in range(1, 8) for n in range(0, glen // 2 + 1)})
+                qs.append(Q(f"readglyph_v{ver}_len{glen}" + ("_long" if lf else ""), "readglyph.cpp", "vh_readglyph", {"GVER": ver, "GLEN": glen, "LONGFMT": lf}, unwind=glen + 4,
+                            unwindset={"vh_bytes": max(glen, 16) + 2, "vh_readglyph": max(glen, 16) + 2, "read_glyph": glen + 3, "sparse": glen + 3, "GlyphFace": glen + 3, "capacity": 9, "bit_set_count": 50,
+                                       "lid:ll_calloc_split": len(sizes) + 2, "lid:ll_malloc_split": len(sizes) + 2, "lid:GlyphFaceC": glen + 3, "lid:sparseC": glen + 3},
+                            cc_defs=["LL_MEM_CASES=" + ",".join(map(str, sizes))], timeout=600,
+                            tiers=("quick", "thorough") if (glen in (9, 10, 11, 14, 15) and not (lf and glen != 11)) else ("thorough",)))
+    return qs
 def c01_sill(): return [x for x in QUERIES["C18"]() if x.name.startswith("readsill")]      # the Sill loader on arbitrary bytes is a C01 clause too
-C01_PARTS = [c01_cmap, c01_name, c01_decoder, feat_queries, c01_pass, c01_silf, c01_silfhdr, c01_ttf, c01_reach, c01_sill]
+C01_PARTS = [c01_cmap, c01_name, c01_decoder, feat_queries, c01_pass, c01_silf, c01_silfhdr, c01_ttf, c01_reach, c01_sill, c01_readglyph]
 @prop("C01")
 def c01():
     qs = []
@@ -430,7 +445,7 @@ def c16():
         for L, hdr in ((4, 0), (12, 0), (20, 0), (20, 0x08000003), (20, 0x08000010), (20, 0x10000010)) + (((54, 0),) if nm == "head" else ()):
             if hdr and nm != "Silf": continue
             qs.append(Q(f"table_{nm}_len{L}_hdr{hdr:x}", "C16_table.cpp", "vh_table", {"TAGV": tag, "LEN": L, "HDRW": hdr}, unwind=8,
-                        unwindset={"vh_bytes": L + 1, "read_literal": L, "safe_copy": 40, "overrun_copy": 8, "fast_copy": 8, "decompress": L // 3 + 2}, leak=False))
+                        unwindset={"vh_bytes": L + 1, "vh_get_table": L + 2, "vh_table": (hdr & 63) + 2, "read_literal": L, "safe_copy": 40, "overrun_copy": 8, "fast_copy": 8, "decompress": L // 3 + 2}, leak=False))
     for L, extra in ((0, {"NOTABLE": 1}), (4, {}), (6, {}), (19, {})):       # no table / too short / empty but valid / one record
         qs.append(Q(f"name_sealed_len{L}" + ("_absent" if extra else ""), "sealed.cpp", "vh_name_sealed", dict({"LEN": max(L, 1)}, **extra), unwind=8,
                     unwindset={"vh_bytes": L + 2, "NameTable": 6, "setPlatformEncoding": 4, "getLanguageId": 4, "vh_stub_locale2lang": 28,
@@ -443,7 +458,7 @@ def c16():
                     note="" if nm == "head" else "later failure points: the solver ran out of memory at 14 GB (the whole Glat/Gloc reading code stays in the formula); thorough tier with 28 GB"))
     for L, out in ((21, 14), (21, 16), (22, 16)):
         qs.append(Q(f"table_Silf_lz4_len{L}_out{out}", "C16_table.cpp", "vh_table", {"TAGV": 0x53696c66, "LEN": L, "HDRW": 0x08000000 | out}, unwind=8,
-                    unwindset={"vh_bytes": L + 1, "read_literal": L, "safe_copy": 40, "overrun_copy": 8, "fast_copy": 8, "decompress": L // 3 + 2}))     # ~20 s: the only queries in which decompression succeeds
+                    unwindset={"vh_bytes": L + 1, "vh_get_table": L + 2, "vh_table": out + 2, "read_literal": L, "safe_copy": 40, "overrun_copy": 8, "fast_copy": 8, "decompress": L // 3 + 2}))     # ~20 s: the only queries in which decompression succeeds
     return qs
 
 # ------------------------------------------------------------------------------------------- C15
@@ -517,6 +532,7 @@ def c02():
         sizes = sorted({0} | {(4 * c + n) * 2 for c in (1, 2) for n in range(0, nkv + 1)})
         qs.append(Q(f"sparse_n{nkv}", "sparse.cpp", "vh_sparse", {"NKV": nkv}, unwind=nkv + 3, unwindset={"vh_sparse": nkv + 3, "lid:ll_calloc_split": len(sizes) + 2, "lid:ll_malloc_split": len(sizes) + 2, "bit_set_count": 50},
                     cc_defs=["LL_MEM_CASES=" + ",".join(map(str, sizes))]))
+    qs.append(Q("valid_upto", "decoder.cpp", "vh_valid_upto_lemma", {"NS": 0, "VH_VALID_UPTO": None}, unwind=6, stubs=[DECODER_CTOR], unit_flags={"Code": ["-fno-inline"]}))
     qs += [x for x in c06() if x.name.startswith("rule_loop")]      # the MaxRuleLoop budget of Pass::runGraphite bounds the work per position (also a C06 clause)
     return qs
 
